@@ -436,8 +436,9 @@ Definition is_heap_op (op : vecop) : bool := match op with VBottomk | VTopk | VS
 Definition is_logic_op (op : binop) : bool := match op with OpAnd | OpOr | OpUnless => true | _ => false end.
 
 (** all steps of an expression; None = outside the fragment (or a construct build rejects: a bare literal) *)
-(** [recsf q qstart qend]: the records the storage delivers for query q's selection and window *)
-Fixpoint eval_steps (o : oracles) (c : caps) (recsf : equery -> Z -> Z -> list record) (p : mparams) (e : mexpr) : option (list step) :=
+(** [recsf q qstart qend]: the records the storage delivers for query q's selection and window; [qf q]: what the engine still
+    evaluates on them (the identity when the storage delivers unselected records, as the in-memory one does) *)
+Fixpoint eval_steps (o : oracles) (c : caps) (qf : equery -> equery) (recsf : equery -> Z -> Z -> list record) (p : mparams) (e : mexpr) : option (list step) :=
   let stp := if p_step p =? 0 then 1000000000 else p_step p in
   match e with
   | MRange op q range offset u param g =>
@@ -445,7 +446,7 @@ Fixpoint eval_steps (o : oracles) (c : caps) (recsf : equery -> Z -> Z -> list r
       let qstart := p_start p - offset - range + (if instant then -30000000000 else 0) in
       let qend := p_end p - offset in
       let stored := recsf q qstart qend in
-      match eval_log o c q (-1) stored with
+      match eval_log o c (qf q) (-1) stored with
       | None => None
       | Some es =>
         match sample_entries op u g es with
@@ -456,7 +457,7 @@ Fixpoint eval_steps (o : oracles) (c : caps) (recsf : equery -> Z -> Z -> list r
         end
       end
   | MVecAgg op e1 param g =>
-      match eval_steps o c recsf p e1 with
+      match eval_steps o c qf recsf p e1 with
       | None => None
       | Some ss => Some (map (if is_heap_op op then vheap_step vec_grouping op (match op with VSort | VSortDesc => -1 | _ => param end) g else vagg_step vec_grouping op g) ss)
       end
@@ -464,10 +465,10 @@ Fixpoint eval_steps (o : oracles) (c : caps) (recsf : equery -> Z -> Z -> list r
   | MLit _ => None
   | MBin op rb l r =>
       match l, r with
-      | MLit v, _ => match eval_steps o c recsf p r with Some ss => opt_seq (map (lit_step op rb v true) ss) | None => None end
-      | _, MLit v => match eval_steps o c recsf p l with Some ss => opt_seq (map (lit_step op rb v false) ss) | None => None end
+      | MLit v, _ => match eval_steps o c qf recsf p r with Some ss => opt_seq (map (lit_step op rb v true) ss) | None => None end
+      | _, MLit v => match eval_steps o c qf recsf p l with Some ss => opt_seq (map (lit_step op rb v false) ss) | None => None end
       | _, _ =>
-          match eval_steps o c recsf p l, eval_steps o c recsf p r with
+          match eval_steps o c qf recsf p l, eval_steps o c qf recsf p r with
           | Some ls, Some rs => if is_logic_op op then Some (map (fun lr => merge_step op (fst lr) (snd lr)) (combine ls rs))
                                 else map2_opt (binop_step op rb) ls rs
           | _, _ => None
@@ -500,11 +501,11 @@ Definition read_steps (instant : bool) (steps : list step) : list series :=
 Definition window_recs (recs : list record) (_ : equery) (qstart qend : Z) : list record :=
   filter (fun r => (qstart <=? r_ts r) && (r_ts r <=? qend)) recs.
 
-Definition eval_metric_on (o : oracles) (c : caps) (recsf : equery -> Z -> Z -> list record) (p : mparams) (e : mexpr) : option (list series) :=
-  match eval_steps o c recsf p e with
+Definition eval_metric_on (o : oracles) (c : caps) (qf : equery -> equery) (recsf : equery -> Z -> Z -> list record) (p : mparams) (e : mexpr) : option (list series) :=
+  match eval_steps o c qf recsf p e with
   | Some steps => Some (read_steps ((p_start p =? p_end p) && (p_step p =? 0)) steps)
   | None => None
   end.
 
 Definition eval_metric (o : oracles) (c : caps) (recs : list record) (p : mparams) (e : mexpr) : option (list series) :=
-  eval_metric_on o c (window_recs recs) p e.
+  eval_metric_on o c (fun q => q) (window_recs recs) p e.
